@@ -13,7 +13,11 @@
 (*                        RunReadRepo (checkpoint + git state, one instant:    *)
 (*                        run.planned) - AFTER the slot was wiped and created  *)
 (*                        logs (run.executed), result (run.result_stored),     *)
-(*                        ptrwrite (run.pointer_saved) and release on exit     *)
+(*                        ptrwrite (run.pointer_saved)                         *)
+(*   every mutating API   ... Finish: the lock is released when the process    *)
+(*                        exits (lock.releasing is the last hook point), a     *)
+(*                        step of its own - contenders started in between      *)
+(*                        still lose                                           *)
 (*   checkpoint update    CpRead (HEAD + pending changes + checksums:          *)
 (*                        cp.computed), CpTruncate (cp.truncated), CpWrite     *)
 (*                        (cp.written) and release                             *)
@@ -49,7 +53,7 @@ Readers == {"analyze", "result_show"}
 Effs == Effects(TRUE)
 AllTargets == TPaths(Cfg)
 AffectedNow == IF repo.cp.set THEN AffectedLo(Cfg, { Comp[p] : p \in ChangeSet(repo, 0, 0) }) ELSE AllTargets
-PastLock == {"held", "effects", "read", "cpcomputed", "cpwrite"}
+PastLock == {"held", "effects", "read", "cpcomputed", "cpwrite", "done"}
 
 Init == /\ LET t0 == [p \in Paths |-> 1] IN
            repo = [paths |-> Paths, ignored |-> {}, commits |-> <<t0>>, idx |-> t0, wt |-> t0, cp |-> NoCpRec]
@@ -72,17 +76,21 @@ TryLock(p) == /\ inv[p].pc = "start" /\ inv[p].api \in Mutating
                  ELSE inv' = [inv EXCEPT ![p] = Idle] /\ UNCHANGED holder          \* lock error: exits, inert
               /\ actor' = p /\ UNCHANGED <<repo, store, cpfile, nruns, nedits, obs>>
 Release(p) == /\ holder' = (IF holder = p THEN 0 ELSE holder) /\ inv' = [inv EXCEPT ![p] = Idle]
+\* the invocation's work is over (or it failed): it still holds the lock until the process exits
+Done(p) == inv' = [inv EXCEPT ![p].pc = "done"] /\ UNCHANGED holder
+Finish(p) == /\ inv[p].pc = "done" /\ Release(p) /\ actor' = p
+             /\ UNCHANGED <<repo, store, cpfile, nruns, nedits, obs>>
 \* run: the pointer is read first (get_next_tracking_run); an unparsable pointer fails the invocation
 RunChoose(p) == /\ inv[p].pc = "held" /\ inv[p].api = "run"
                 /\ IF CanStart(store)
                    THEN /\ nruns' = nruns + 1 /\ UNCHANGED holder
                         /\ inv' = [inv EXCEPT ![p] = [@ EXCEPT !.pc = "effects", !.r = nruns + 1, !.k = NextSlot(store, N), !.e = 1]]
-                   ELSE Release(p) /\ UNCHANGED nruns
+                   ELSE Done(p) /\ UNCHANGED nruns
                 /\ actor' = p /\ UNCHANGED <<repo, store, cpfile, nedits, obs>>
 \* ... then the slot is wiped and created, and only then are checkpoint and git state read (one instant)
 RunEffect(p) == /\ inv[p].pc = "effects"
                 /\ store' = Apply(store, Effs[inv[p].e], inv[p].k, inv[p].r)
-                /\ IF inv[p].e = Len(Effs) THEN Release(p)
+                /\ IF inv[p].e = Len(Effs) THEN Done(p)
                    ELSE IF Effs[inv[p].e] = "mkdir" THEN inv' = [inv EXCEPT ![p].pc = "read"] /\ UNCHANGED holder
                    ELSE inv' = [inv EXCEPT ![p].e = @ + 1] /\ UNCHANGED holder
                 /\ actor' = p /\ UNCHANGED <<repo, cpfile, nruns, nedits, obs>>
@@ -91,28 +99,28 @@ RunReadRepo(p) == /\ inv[p].pc = "read"
                      THEN /\ inv' = [inv EXCEPT ![p] = [@ EXCEPT !.pc = "effects", !.targets = AffectedNow, !.e = @ + 1]]
                           /\ obs' = [k |-> "run_read", targets |-> AffectedNow, want |-> AffectedNow, r |-> inv[p].r]
                           /\ UNCHANGED holder
-                     ELSE Release(p) /\ obs' = [k |-> "run_error", r |-> inv[p].r]     \* the slot stays created and empty
+                     ELSE Done(p) /\ obs' = [k |-> "run_error", r |-> inv[p].r]     \* the slot stays created and empty
                   /\ actor' = p /\ UNCHANGED <<repo, store, cpfile, nruns, nedits>>
 \* checkpoint update --pending: read, then truncate, then rewrite (Checkpoint::save is not atomic)
 CpRead(p) == /\ inv[p].pc = "held" /\ inv[p].api = "cp_update"
              /\ IF cpfile = "ok"
                 THEN inv' = [inv EXCEPT ![p] = [@ EXCEPT !.pc = "cpcomputed", !.ncp = CpUpdate(repo, 0, TRUE).cp]] /\ UNCHANGED holder
-                ELSE Release(p)                     \* an unparsable checkpoint file fails the update (open_checkpoint)
+                ELSE Done(p)                        \* an unparsable checkpoint file fails the update (open_checkpoint)
              /\ actor' = p /\ UNCHANGED <<repo, store, cpfile, nruns, nedits, obs>>
 CpTruncate(p) == /\ inv[p].pc = "cpcomputed" /\ cpfile' = "torn"
                  /\ inv' = [inv EXCEPT ![p].pc = "cpwrite"] /\ actor' = p
                  /\ UNCHANGED <<repo, store, holder, nruns, nedits, obs>>
-CpWrite(p) == /\ inv[p].pc = "cpwrite" /\ repo' = [repo EXCEPT !.cp = inv[p].ncp] /\ cpfile' = "ok" /\ Release(p)
+CpWrite(p) == /\ inv[p].pc = "cpwrite" /\ repo' = [repo EXCEPT !.cp = inv[p].ncp] /\ cpfile' = "ok" /\ Done(p)
               /\ obs' = [k |-> "cp_written", cp |-> inv[p].ncp]
               /\ actor' = p /\ UNCHANGED <<store, nruns, nedits>>
 \* checkpoint delete parses the checkpoint before removing it (open_checkpoint): a truncated file fails the invocation
 \* and stays - only `out delete --all` clears it
 CpDeleteStep(p) == /\ inv[p].pc = "held" /\ inv[p].api = "cp_delete"
                    /\ IF cpfile = "ok" THEN repo' = CpDelete(repo) ELSE UNCHANGED repo
-                   /\ UNCHANGED cpfile /\ Release(p)
+                   /\ UNCHANGED cpfile /\ Done(p)
                    /\ actor' = p /\ UNCHANGED <<store, nruns, nedits, obs>>
 OutDeleteStep(p) == /\ inv[p].pc = "held" /\ inv[p].api = "out_delete"
-                    /\ repo' = CpDelete(repo) /\ store' = OutDeleteAll(store, N) /\ cpfile' = "ok" /\ Release(p)
+                    /\ repo' = CpDelete(repo) /\ store' = OutDeleteAll(store, N) /\ cpfile' = "ok" /\ Done(p)
                     /\ actor' = p /\ UNCHANGED <<nruns, nedits, obs>>
 \* readers: no lock, one instant
 Analyze(p) == /\ inv[p].pc = "start" /\ inv[p].api = "analyze"
@@ -133,7 +141,7 @@ Next == \/ \E p \in Paths, c \in 1..2 : EnvEdit(p, c)
         \/ \E p \in Procs : \/ \E api \in Mutating \cup Readers : Start(p, api)
                             \/ TryLock(p) \/ RunChoose(p) \/ RunEffect(p) \/ RunReadRepo(p)
                             \/ CpRead(p) \/ CpTruncate(p) \/ CpWrite(p)
-                            \/ CpDeleteStep(p) \/ OutDeleteStep(p) \/ Analyze(p) \/ ResultShow(p) \/ Crash(p)
+                            \/ CpDeleteStep(p) \/ OutDeleteStep(p) \/ Finish(p) \/ Analyze(p) \/ ResultShow(p) \/ Crash(p)
 Spec == Init /\ [][Next]_vars
 
 \* ---- obligations
